@@ -63,7 +63,12 @@ func oracleC16Single(g *gen, ctx *engineCtx, cfg extCfg) {
 	// one NYCT trip update per message: derived fields and the stale filter, with the boundary made explicit
 	ts := uint64(1700000000 + g.r.Intn(100000))
 	origin := g.r.Intn(600000)
-	id := fmt.Sprintf("%06d_%s..%s%s", origin, g.pick([]string{"L", "7X", "A", "GS"}), g.pick([]string{"N", "S"}), g.pick([]string{"", "01R", "X"}))
+	// the two free characters between route and direction are CHARACTERS: any two, multi-byte ones and stray bytes included
+	sep := ".."
+	if g.coin(0.25) {
+		sep = g.pick([]string{"·.", "··", "•.", ".é", "\xff.", ".\xff", "日.", "日本", "😀.", "\xc3.", "\xe2\x82."})
+	}
+	id := fmt.Sprintf("%06d_%s%s%s%s", origin, g.pick([]string{"L", "7X", "A", "GS"}), sep, g.pick([]string{"N", "S"}), g.pick([]string{"", "01R", "X"}))
 	td := &gtfsrt.TripDescriptor{TripId: ptr(id), RouteId: ptr(g.pick([]string{"L", "M", "A"})), StartDate: ptr("20231114")}
 	n := &gtfsrt.NyctTripDescriptor{}
 	assigned := g.coin(0.5)
@@ -156,7 +161,12 @@ func oracleC16Single(g *gen, ctx *engineCtx, cfg extCfg) {
 		ctx.violate("c16-direction", fmt.Sprintf("direction %v for NYCT direction %d (present=%v)", t.ID.DirectionID, dir, hasDir), replay)
 	}
 	wantStart := time.Duration(origin*6/10) * time.Second
-	if !t.ID.HasStartTime || t.ID.StartTime != wantStart {
+	if !nyctIDFormat.MatchString(id) {
+		// not of the NYCT form (e.g. stray bytes that count as THREE characters between route and direction): no start time is derived
+		if t.ID.HasStartTime {
+			ctx.violate("c16-start-time", fmt.Sprintf("start time %v derived from trip id %q, which is not of the NYCT form", t.ID.StartTime, id), replay)
+		}
+	} else if !t.ID.HasStartTime || t.ID.StartTime != wantStart {
 		ctx.violate("c16-start-time", fmt.Sprintf("start time %v (has=%v) for origin time %06d, expected %v", t.ID.StartTime, t.ID.HasStartTime, origin, wantStart), replay)
 	}
 	if assigned && train != "" {
@@ -328,7 +338,9 @@ func engineRTNyctTrips(ctx *engineCtx) {
 }
 
 // ---- C17 ----
-var elevFormat = regexp.MustCompile(`^([[:alnum:]]{3})([SN]?)#EL([^\n]*)$`) // ids of the form station + optional N/S + '#EL' + elevator
+// ids of the form station + optional N/S + '#EL' + elevator; the form is recognised anywhere in the id (leftmost occurrence), so
+// an id like "lmm:alert:R25N#EL728" is the elevator alert R25N#EL728
+var elevFormat = regexp.MustCompile(`([[:alnum:]]{3}?)([SN]?)#EL(.*)`)
 
 func (g *gen) elevatorFeed() (*gtfsrt.FeedMessage, int) {
 	m := &gtfsrt.FeedMessage{Header: header(1700000000)}
@@ -337,6 +349,9 @@ func (g *gen) elevatorFeed() (*gtfsrt.FeedMessage, int) {
 	for k := g.r.Intn(8); k > 0; k-- {
 		st := stations[g.r.Intn(len(stations))]
 		id := st + g.pick([]string{"N", "S", ""}) + "#EL" + g.pick([]string{"123", "9", "200X", ""})
+		if g.coin(0.15) { // the same elevator alert republished under a prefixed id
+			id = g.pick([]string{"lmm:alert:", "lmm:planned_work:", "x", "XX", "#EL"}) + id
+		}
 		a := g.alert(true)
 		a.InformedEntity = append(a.InformedEntity, &gtfsrt.EntitySelector{StopId: ptr(st + "N")})
 		m.Entity = append(m.Entity, &gtfsrt.FeedEntity{Id: ptr(id), Alert: a})
@@ -401,9 +416,6 @@ func oracleC17(dm *gtfsrt.FeedMessage, r *gtfs.Realtime, plain *gtfs.Realtime, c
 		}
 		mt := elevFormat.FindStringSubmatch(e.GetId())
 		if mt == nil {
-			if strings.Contains(e.GetId(), "#EL") {
-				return "" // an id that is not of the documented form but contains '#EL': outside the property, left to the model
-			}
 			others = append(others, e)
 			continue
 		}
@@ -508,8 +520,13 @@ func oracleC17(dm *gtfsrt.FeedMessage, r *gtfs.Realtime, plain *gtfs.Realtime, c
 		}
 		_, okMeta := metadataJSON(e.Alert)
 		wantMeta := 0
+		for _, tr := range e.Alert.GetDescriptionText().GetTranslation() { // translations the feed itself already carries in that language pass through
+			if tr.GetLanguage() == "github.com/jamespfennell/gtfs/extensions/nyctalerts/Metadata" {
+				wantMeta++
+			}
+		}
 		if cfg.addMet && hasMercury && okMeta {
-			wantMeta = 1
+			wantMeta++
 		}
 		if nMeta != wantMeta {
 			return fmt.Sprintf("alert %s: %d metadata descriptions, expected %d (requested=%v, has NYCT data=%v)", e.GetId(), nMeta, wantMeta, cfg.addMet, hasMercury)
